@@ -65,15 +65,36 @@ func C17(c *run.Ctx) {
 			{"no-credentials", func(f url.Values) world.Auth { f.Del("client_id"); return world.Auth{Mode: "none"} }},
 			{"confidential-id-only", func(f url.Values) world.Auth { return world.Public("conf-a") }},
 			{"unknown-client", func(f url.Values) world.Auth { f.Set("client_id", "ghost"); return world.Basic("ghost", "x") }},
-			{"unregistered-redirect", func(f url.Values) world.Auth { f.Set("redirect_uri", "https://evil.example/cb"); return world.Basic("conf-a", "secret-of-a") }},
-			{"scope-not-allowed", func(f url.Values) world.Auth { f.Set("scope", "openid admin"); return world.Basic("conf-a", "secret-of-a") }},
-			{"audience-not-allowed", func(f url.Values) world.Auth { f.Set("audience", "https://evil.example"); return world.Basic("conf-a", "secret-of-a") }},
+			{"unregistered-redirect", func(f url.Values) world.Auth {
+				f.Set("redirect_uri", "https://evil.example/cb")
+				return world.Basic("conf-a", "secret-of-a")
+			}},
+			{"scope-not-allowed", func(f url.Values) world.Auth {
+				f.Set("scope", "openid admin")
+				return world.Basic("conf-a", "secret-of-a")
+			}},
+			{"audience-not-allowed", func(f url.Values) world.Auth {
+				f.Set("audience", "https://evil.example")
+				return world.Basic("conf-a", "secret-of-a")
+			}},
 			{"short-state", func(f url.Values) world.Auth { f.Set("state", "short"); return world.Basic("conf-a", "secret-of-a") }},
-			{"unknown-response-type", func(f url.Values) world.Auth { f.Set("response_type", "unknown"); return world.Basic("conf-a", "secret-of-a") }},
-			{"contains-request_uri", func(f url.Values) world.Auth { f.Set("request_uri", effPrefix+"abc"); return world.Basic("conf-a", "secret-of-a") }},
-			{"contains-foreign-request_uri", func(f url.Values) world.Auth { f.Set("request_uri", "https://client.example/ro.jwt"); return world.Basic("conf-a", "secret-of-a") }},
+			{"unknown-response-type", func(f url.Values) world.Auth {
+				f.Set("response_type", "unknown")
+				return world.Basic("conf-a", "secret-of-a")
+			}},
+			{"contains-request_uri", func(f url.Values) world.Auth {
+				f.Set("request_uri", effPrefix+"abc")
+				return world.Basic("conf-a", "secret-of-a")
+			}},
+			{"contains-foreign-request_uri", func(f url.Values) world.Auth {
+				f.Set("request_uri", "https://client.example/ro.jwt")
+				return world.Basic("conf-a", "secret-of-a")
+			}},
 			{"openid-without-redirect", func(f url.Values) world.Auth { f.Del("redirect_uri"); return world.Basic("conf-a", "secret-of-a") }},
-			{"plain-http-redirect", func(f url.Values) world.Auth { f.Set("redirect_uri", "http://insecure.example/cb"); return world.Basic("conf-a", "secret-of-a") }},
+			{"plain-http-redirect", func(f url.Values) world.Auth {
+				f.Set("redirect_uri", "http://insecure.example/cb")
+				return world.Basic("conf-a", "secret-of-a")
+			}},
 		}
 		bp := badPushes[gi%len(badPushes)]
 		f := goodForm("conf-a")
@@ -215,6 +236,22 @@ func C17(c *run.Ctx) {
 				p.used = true
 				c.Count("c17_uses_ok", 1)
 				c17Authoritative(c, viol, p, out, field)
+				// the code is bound to the PUSHED redirect_uri, whatever was sent alongside the request_uri
+				if code := out.Params.Get("code"); code != "" {
+					bad := w.Token(url.Values{"grant_type": {"authorization_code"}, "code": {code}, "redirect_uri": {"https://evil.example/cb"}}, authFor(w, p.client))
+					if bad.Err == nil {
+						viol("par-not-authoritative", "token-endpoint-redirect-binding", "a code obtained through PAR was redeemed with a redirect_uri other than the pushed one (query alongside: "+extra.Encode()+")")
+					} else {
+						good := w.Token(url.Values{"grant_type": {"authorization_code"}, "code": {code}, "redirect_uri": {p.form.Get("redirect_uri")}}, authFor(w, p.client))
+						c.Case(fmt.Sprintf("par code redeemed with the pushed redirect_uri ok=%v err=%s field=%s", good.Err == nil, good.ErrName, field))
+						if good.Err != nil && bad.ErrName != "invalid_grant" {
+							c.Count("c17_code_redeem_refused:"+good.ErrName, 1)
+						}
+						if good.Err != nil && good.ErrName == "invalid_grant" && field == "redirect_uri" {
+							viol("par-not-authoritative", "token-endpoint-redirect-binding", "the code is not redeemable with the pushed redirect_uri after a conflicting redirect_uri was sent alongside the request_uri: "+world.ErrDetail(good.Err))
+						}
+					}
+				}
 			}
 		}
 		// ---- unknown / foreign-prefix URIs and enforcement
@@ -297,7 +334,7 @@ func c17Authoritative(c *run.Ctx, viol func(kind, key, detail string), p *pushed
 			}
 		}
 	}
-	for _, k := range []string{"custom_param", "nonce"} {
+	for _, k := range []string{"custom_param", "nonce", "redirect_uri", "scope", "state", "response_type"} {
 		if ar.GetRequestForm().Get(k) != pf.Get(k) {
 			viol("par-not-authoritative", "form:"+k, fmt.Sprintf("form value %s=%q, pushed %q", k, ar.GetRequestForm().Get(k), pf.Get(k)))
 		}
